@@ -1,7 +1,7 @@
 (* C14 property theorems: ONLY statements closed by `exact`, each followed by Print Assumptions;
    plus non-vacuity Examples.  Model: C14_Model.v (transcription of dune/common/std/*.hh), spec: C14_Spec.v. *)
 From Coq Require Import List ZArith Bool Permutation.
-From DuneV Require Import C14_Params C14_Model C14_Spec C14_Proofs C14_Proofs_Access C14_Proofs_Perm C14_Proofs_Deep.
+From DuneV Require Import C14_Params C14_Model C14_Spec C14_Proofs C14_Proofs_Access C14_Proofs_Perm C14_Proofs_Deep C14_Proofs_Eq.
 Import ListNotations.
 Local Open Scope Z_scope.
 
@@ -532,3 +532,27 @@ Proof. split; [vm_compute; reflexivity|split; [vm_compute; reflexivity|vm_comput
 Example C14_ex_index_conversion : c14_map (C14_Mapping C14_Right [2; 3] []) (map (c14_wrap 16 true) [1; 2]) = 5 /\
   c14_wrap 8 false 300 = 44.   (* an index that does not fit wraps: the hypothesis is needed *)
 Proof. split; vm_compute; reflexivity. Qed.
+
+(* --- second cross-cutting audit: operator== between mappings of DIFFERENT extents / index types (asymmetric sides),
+   strides beyond the range of the narrower index type.  c14_mapping_eqb_cross_w is the comparison as written in
+   layout_stride.hh (right-hand stride narrowed to the left-hand index_type), c14_mapping_eqb_cross the exact one. *)
+Theorem C14_mapping_eq_cross_w_exact : forall bits sg a b, 0 < bits ->
+  Forall (fun s => c14_fits bits sg s = true) (c14_strides_of b) ->
+  c14_mapping_eqb_cross_w bits sg a b = c14_mapping_eqb_cross a b.
+Proof. exact c14_mapping_eq_cross_w_exact. Qed.
+Print Assumptions C14_mapping_eq_cross_w_exact.
+Theorem C14_mapping_eq_cross_sym : forall a b, c14_mapping_eqb_cross a b = c14_mapping_eqb_cross b a.
+Proof. exact c14_mapping_eq_cross_sym. Qed.
+Print Assumptions C14_mapping_eq_cross_sym.
+(* The full statement "a == b -> a and b address alike" (C14_mapping_eq_sound) is FALSE of the header's comparison once the
+   representability hypothesis is dropped: finding F-C14-9 (witness replayed on the implementation by op seq). *)
+Theorem C14_mapping_eq_cross_w_refuted : exists a b idx, c14_wf a /\ c14_wf b /\ c14_valid idx (c14_ext a) /\
+  c14_mapping_eqb_cross_w 16 true a b = true /\ c14_mapping_eqb_cross_w 64 true b a = false /\ c14_map a idx <> c14_map b idx.
+Proof. exact c14_mapping_eq_cross_w_refuted. Qed.
+Print Assumptions C14_mapping_eq_cross_w_refuted.
+Example C14_ex_eq_cross_w : c14_mapping_eqb_cross_w 16 true (C14_Mapping C14_Stride [2; 3] [3; 1]) (C14_Mapping C14_Stride [2; 3] [3; 1]) = true /\
+  c14_mapping_eqb_cross_w 16 true (C14_Mapping C14_Stride [2; 3] [3; 1]) (C14_Mapping C14_Stride [2; 3] [3; 2]) = false /\
+  c14_mapping_eqb_cross_w 32 false (C14_Mapping C14_Stride [2] [3]) (C14_Mapping C14_Stride [2] [4294967299]) = true /\
+  c14_mapping_eqb_cross (C14_Mapping C14_Stride [2] [3]) (C14_Mapping C14_Stride [2] [4294967299]) = false /\
+  Forall (fun s => c14_fits 16 true s = true) (c14_strides_of (C14_Mapping C14_Stride [2; 3] [3; 1])).
+Proof. repeat split; try (vm_compute; reflexivity). repeat constructor. Qed.
